@@ -70,6 +70,8 @@ REQUIRED_COUNTERS = [
     'obs:guess:root-compared', 'obs:guess:comp-residuals-compared', 'obs:guess:group-residuals-twin-compared',
     'guess:scal:x:ref0', 'guess:scal:x:ref<ref0', 'guess:scal:x:negative-ref', 'guess:scal:x:array',
     'guess:scal:x:res_ref', 'guess:scal:a:ref0', 'guess:scal:units',
+    'guess:route=add_output', 'guess:route=options@comp', 'guess:route=options@holder', 'guess:route=options@solver',
+    'guess:route=options@root', 'guess:route=options-two-or-more-levels-above-the-component-group',
 ]
 ASSUMPTIONS = [
     'R (omv/ref/flatmodel.py) is exact and scaling-agnostic; its Jacobian is re-validated by complex step per case',
@@ -1148,6 +1150,12 @@ def run_guess_case(case, acc):
     acc.count('guess:solver=' + solver)
     for f in feats:
         acc.count('guess:scal:' + f)
+    depth = {'root': 0, 'nested': 2}.get(level, 1)       # levels between the root and the group holding the states
+    for st in full['states']:
+        if st['x_scal']:
+            acc.count('guess:route=' + st['route'])
+            if st['route'] == 'options@root' and depth == 2:
+                acc.count('guess:route=options-two-or-more-levels-above-the-component-group')
     for name, tw in (('plain', plain), ('scaled', scal)):
         if tw['status'] == 'raises':
             acc.viol('%s:level=%s' % (exc_key('guess:%s-twin' % name, tw['exc']), level),
